@@ -8,8 +8,8 @@ foreign key none / single / composite / self-referential with ON DELETE /
 ON UPDATE, named or not, to a parent table whose name and column names vary;
 unique constraint, index plain / unique / partial / two-column, CHECK;
 main or ATTACHed schema).  Every definition within d feature deviations of
-two base tables (a minimal one and a "rich" one that has every kind of object)
-is created on a fresh SQLite database with the real ``MetaData.create_all`` and
+three base tables (a minimal one, a "rich" one that has every kind of object, a
+"quoted" one with quoted names, schema and composite keys) is created on a fresh SQLite database with the real ``MetaData.create_all`` and
 
 1. ``Inspector`` output (get_columns / get_pk_constraint / get_foreign_keys /
    get_unique_constraints / get_indexes) is compared feature by feature with
@@ -19,7 +19,14 @@ is created on a fresh SQLite database with the real ``MetaData.create_all`` and
    fresh database and inspected again: the two inspector outputs (now
    including CHECK constraints) must be identical (fixpoint).
 
-Mutations caught: see the end of the module docstring (filled in after runs).
+Mutations caught: (private copy of lib/, quick tier, each gave new VIOLATION signatures)
+  * sqlite FK_PATTERN without the ``SET\\s+NULL`` alternative -> inspector-fks: ondelete/onupdate='SET NULL';
+  * get_pk_constraint without ``cols.sort(key=primary_key)`` -> inspector-pk / fixpoint-columns: pk='composite_rev';
+  * _find_cols_in_sig ``"(.+?)"`` -> ``"(\\w+?)"`` -> inspector-uqs / inspector-fks for names with a space;
+  * get_foreign_keys storing ON DELETE under options["onupdate"] -> inspector-fks: ondelete='CASCADE';
+  * _resolve_type_affinity keeping only the first numeric argument -> inspector-columns: coltype='NUMERIC(5,2)';
+  * engine/reflection.py _reflect_fk dropping fkey_d["options"] -> fixpoint-fks (ON DELETE lost on re-create);
+  * get_indexes ``unique=0`` -> inspector-ixs: ix='unique'.
 """
 import itertools
 import sqlite3
@@ -44,13 +51,26 @@ ID = "C15"
 LEVEL = "exploration"
 META = dict(
     engine="I",
-    technique="placeholder",
+    technique="deviation-bounded exhaustive enumeration of table definitions; create -> Inspector -> autoload -> re-create "
+    "-> Inspector on real SQLite databases, compared with a definition-derived expectation and with each other (fixpoint)",
     design_ref="DESIGN.md §5 C15",
-    level_text="placeholder",
-    level_note="placeholder",
-    rule="placeholder",
-    assumptions=[],
-    bounds=dict(quick="placeholder", thorough="placeholder"),
+    level_text="A table definition is a vector of 26 features (names of table / columns / constraints / referred table and "
+    "columns / schema from {plain, MixedCase, with space, embedded double quote, reserved word}; 1-3 columns x 7 types x "
+    "nullable x 4 server defaults; 5 primary-key shapes x 3 names; 5 foreign-key shapes x 4 names x ON DELETE x ON UPDATE; "
+    "5 unique shapes; 6 index shapes; 4 CHECK shapes; main or ATTACHed schema). Every valid definition within 2 (quick) / "
+    "3 (thorough) meaningful deviations of three base tables (minimal, rich = every object kind present, quoted = quoted "
+    "names + schema + composite keys) is created with create_all on a fresh SQLite database; Inspector.get_columns / "
+    "get_pk_constraint / get_foreign_keys / get_unique_constraints / get_indexes are compared with the expectation computed "
+    "from the feature vector; the table is reflected with Table(autoload_with=), re-created on a second fresh database and "
+    "inspected again (incl. CHECK constraints): both inspections must be equal. Complete for the bound.",
+    level_note="SQLite 3.40 only (the only executable backend): PostgreSQL / MariaDB reflection queries need a live "
+    "catalog and are out of reach; SQLite has no comments. Autoincrement and CHECK text are judged by the fixpoint only. "
+    "Trusted: the expectation function (60 lines) and the harness's own identifier quoting.",
+    rule="case = (base table, set of deviating features, their values); deviations that mean nothing in the resulting table "
+    "(e.g. ON DELETE without a foreign key) are not counted; non-trivial = the created table has a foreign key, unique "
+    "constraint, index or composite primary key (the regexp-driven parts of SQLite reflection run)",
+    assumptions=["names contain no dot", "one child table and at most one parent table per database"],
+    bounds=dict(quick="all definitions within 2 deviations of 3 bases", thorough="all definitions within 3 deviations of 3 bases"),
 )
 
 # ------------------------------------------------------------------ features
